@@ -9,6 +9,7 @@ func init() {
 	Props["C02"] = &PropSpec{Level: "other", Rules: []string{"R01", "R02", "R03", "R04"}, Explanation: "tbd"}
 	Props["C05"] = &PropSpec{Level: "other", Rules: []string{"R10"}, Explanation: "tbd"}
 	Props["C16"] = &PropSpec{Level: "other", Rules: []string{"R39", "R40"}, Explanation: "tbd"}
+	Props["C01"] = &PropSpec{Level: "other", Rules: []string{"R05", "R06", "R07", "R08", "R09", "R11", "R12", "R13", "R14"}, Explanation: "tbd"}
 	Props["C14"] = &PropSpec{Level: "other", Rules: []string{"R37", "R38"}, Explanation: "tbd"}
 	Props["C07"] = &PropSpec{Level: "other", Rules: []string{"R15", "R15p", "R16"}, Explanation: "tbd"}
 	Props["C17"] = &PropSpec{Level: "proof", Rules: []string{"R41"}, Explanation: "tbd"}
